@@ -4,7 +4,7 @@ import numpy as np
 from ..runner import job
 
 
-@job("helper.structures_utils", ("C01", "C10", "C15"), ranges=[(r"^v", -1.5, 1.5)])
+@job("helper.structures_utils", ("C01", "C10", "C15"), ranges=[(r"^v", -1.5, 1.5), (r"^q", -0.6, 0.6)])
 def structures_utils(env):
     import openaerostruct.structures.utils as U
     xp = env.xp
@@ -16,6 +16,23 @@ def structures_utils(env):
         u = env.call(U.unit, v)
         env.eq("C01", "unit(v) * norm(v) == v  [n=%d]" % n, u * nv, v)
         env.eq("C01", "unit_d(v) == d unit / d v  [n=%d]" % n, env.call(U.unit_d, v), env.deriv(U.unit, v))
+    # rotation lemma used as canonicalisation by c10.rotation: for every rotation R (Cayley matrix of a Gibbs vector q)
+    # norm(R v) == norm(v) and unit(R v) == R unit(v)
+    q = env.var("q", (3,))
+    qq = (q * q).sum()
+    Kx = np.array([[0 * q[0], -q[2], q[1]], [q[2], 0 * q[0], -q[0]], [-q[1], q[0], 0 * q[0]]], dtype=object if env.sym else float)
+    qqT = np.array([[q[i] * q[j] for j in range(3)] for i in range(3)], dtype=object if env.sym else float)
+    Rm = ((1 - qq) * np.eye(3) + 2 * qqT + 2 * Kx) / (1 + qq)
+    v = env.var("v3", (3,))
+    Rv = np.array([sum(Rm[i, j] * v[j] for j in range(3)) for i in range(3)], dtype=object if env.sym else float)
+    n0, n1 = env.call(U.norm, v), env.call(U.norm, Rv)
+    env.eq("C10", "rotation lemma: norm(R v)^2 == norm(v)^2 (both non-negative by construction)", n1 * n1, n0 * n0)
+    u0 = env.call(U.unit, v)
+    Ru0 = np.array([sum(Rm[i, j] * u0[j] for j in range(3)) for i in range(3)], dtype=object if env.sym else float)
+    # unit(R v) == R unit(v) follows from the three clauses: unit(w) norm(w) == w at w = R v, norm(R v) == norm(v) (equal
+    # squares of principal roots), and R (unit(v) norm(v)) == R v
+    env.eq("C10", "rotation lemma: unit(R v) * norm(R v) == R v", env.call(U.unit, Rv) * n1, Rv)
+    env.eq("C10", "rotation lemma: R unit(v) * norm(v) == R v", Ru0 * n0, Rv)
     a = env.var("a", (3,))
     b = env.var("b", (3,))
     dcda, dcdb = env.call(U.cross_d, a, b)
